@@ -160,4 +160,19 @@ PROPS["C17"] = dict(
     technique="contract-based deductive verification (Verus on mechanically extracted real bodies)",
 )
 
+PROPS["C15"] = dict(
+    level="proof",
+    text="read-only paths: the compile-time guard. OwnedSegment::can_start_with, OwnedTargetPath::can_start_with, CompileConfig::is_read_only_path (loop over all entries, unbounded) and assignment::verify_mutable verified by Verus on the extracted real bodies: a write is accepted only if it can not reach any read-only location, counting negative/non-negative index aliasing",
+    verus=["v_read_only"],
+    kani=[],
+    scans=["target_call_sites", "read_only_guards"],
+    trusted=["verus prelude readonly.rs: field names abstracted as ids; BTreeSet<ReadOnlyPath> as its iteration sequence; derived PartialEq on OwnedTargetPath",
+             "callee contract assumed: generic ValuePath::can_start_with = pairwise OwnedSegment::can_start_with over the shorter path (iterator plumbing in src/path/mod.rs)",
+             "seg_may_alias is the aliasing relation implied by the C18 array semantics (spec_insert): same-sign distinct indices never address the same element, mixed-sign ones may",
+             "frame: the only target mutations are assignment Target::insert and del (scan target_call_sites), each guarded at compile time (scan read_only_guards)"],
+    not_covered=["the runtime half (that Target::insert/target_remove at an accepted path leave the read-only value unchanged on the embedder's target) rests on C18's laws for Value and on the embedder for other targets",
+                 "non-recursive entries protect the path itself, not the values below it (the code's documented rule)"],
+    technique="contract-based deductive verification (Verus on mechanically extracted real bodies, for-loop invariant)",
+)
+
 HOOK_COMMITS = ["8978857", "33091a8"]
